@@ -469,7 +469,7 @@ def run_parse(text: str, route: str, again: int = 0):
     from dznpy.scoping import NamespaceIdsTypeError      # pylint: disable=import-outside-toplevel
     data = text.encode('utf-8') if route == 'bytes' else text
     with common.quiet():
-        inst = DznJsonAst(data)
+        inst = DznJsonAst(data, verbose=common.verbose_for(text))
         try:
             return inst.process()
         except (DznJsonError, NamespaceIdsTypeError) as first:
